@@ -124,14 +124,15 @@ fn history_segs(rng: &mut Rng, h: &str, l: &mut LinkScn) {
                     let f = refenc(&p);
                     f[..rng.range(1, f.len() - 1)].to_vec()
                 }
-                _ => START[..rng.range(1, 7)].to_vec(),
+                _ => START[..rng.range(1, 8)].to_vec(),
             };
             l.segs.push(Seg::Raw(Hx(junk)));
         }
         "after-io-error" => {
-            let junk = match rng.below(3) {
+            let junk = match rng.below(4) {
                 0 => Vec::new(),
                 1 => gen::gen_raw(rng, 12),
+                2 => START[..rng.range(1, 8)].to_vec(),
                 _ => {
                     let p = gen::gen_payload_upto(rng, 11);
                     let f = refenc(&p);
